@@ -77,7 +77,7 @@ def innerLLT [LE K] [DecidableLE K] (sqrtF : K → K) : Inner K n p m :=
     match llt sqrtF n kb.xx with
     | .error _ => none
     | .ok L =>
-      some fun rx _ _ => (bwdSubst false L (fwdSubst false L rx), Vector.ofFn fun _ => 0, Vector.ofFn fun _ => 0)
+      some fun rx _ _ => (solveLL n L rx, Vector.ofFn fun _ => 0, Vector.ofFn fun _ => 0)
 
 end
 end Piqp
